@@ -15,7 +15,7 @@ class C14(Prop):
     groups = {"thr": Group("thr", REQ, "ElicitRules.thr_case", "RunElicit.chk_thr_dom"),
               "m2q": Group("m2q", REQ, "ElicitRules.m2q_case", "ElicitRules.chk_m2q"),
               "rootn": Group("rootn", REQ, "ElicitRules.rootn_case", "ElicitRules.chk_rootn")}
-    rule = ("consistent (profile, valuation) pairs: unit-sum, skewed (x^8), tie-heavy, zero-containing, threshold-straddling (value = one ulp either side of a threshold) valuations, "
+    rule = ("histories: one third of the cases run the rule object on an instance of a different size first; consistent (profile, valuation) pairs: unit-sum, skewed (x^8), tie-heavy, zero-containing, threshold-straddling (value = one ulp either side of a threshold) valuations, "
             "integer valuations for the two-sided rule; m from 2 to 12 (every binary-search shape), all k/lambda from 1 to m (sampled), n<=4; rules k-ARV, lambda-TSF, Match-TwoQueries, "
             "two-sided lambda-TSF (each side). Simulated matrix, query trace and counter compared exactly with the model; independent linear-scan reference and the property's inequalities "
             "as direct oracle. Non-trivial = some threshold set beyond the favourite is non-empty; distinct by input hash")
@@ -37,7 +37,12 @@ class C14(Prop):
                 k = rng.randint(1, n); k2 = rng.randint(1, n)
                 kind = rng.choice(["int", "bigint", "zero"])
                 P, V = E.gen_pair(rng, n, n, kind, k); P2, V2 = E.gen_pair(rng, n, n, kind, k2)
-                yield dict(entry="DoubleLambdaTSF.get_simulated_cardinal_profiles", family="double_" + kind, rule="Double", P=P, V=V, P2=P2, V2=V2, k=k, k2=k2, side=i % 8 // 4)
+                pre = []
+                if i % 3 == 0:
+                    n2 = rng.choice([x for x in range(max(2, k, k2), 9) if x != n] or [n + 1])
+                    Pa, Va = E.gen_pair(rng, n2, n2, "int", k); Pb, Vb = E.gen_pair(rng, n2, n2, "int", k2)
+                    pre = [dict(P=Pa, V=Va, P2=Pb, V2=Vb)]
+                yield dict(entry="DoubleLambdaTSF.get_simulated_cardinal_profiles", family="double_" + kind + ("_reuse" if pre else ""), rule="Double", P=P, V=V, P2=P2, V2=V2, k=k, k2=k2, side=i % 8 // 4, prelude=pre)
                 continue
             if rule in ("TSF", "M2Q"):
                 n = m
@@ -46,7 +51,12 @@ class C14(Prop):
             kind = KINDS[(i // 4) % 5] if rule != "M2Q" else rng.choice(KINDS[:4])
             P, V = E.gen_pair(rng, n, m, kind, k)
             ent = {"KARV": "KARV.get_simulated_cardinal_profile", "TSF": "LambdaTSF.get_simulated_cardinal_profile", "M2Q": "MatchTwoQueries.get_simulated_cardinal_profile"}[rule]
-            yield dict(entry=ent, family=rule.lower() + "_" + kind, rule=rule, P=P, V=V, k=k, ezi=bool(i % 3), dtype=("int64" if i % 5 else "int32"))
+            pre = []
+            if i % 3 == 0:     # history: the same rule object has been used on an instance of another size before
+                m2 = rng.choice([x for x in range(max(2, k), 13) if x != m] or [m + 1]); n2 = m2 if rule in ("TSF", "M2Q") else rng.randint(1, 3)
+                P0, V0 = E.gen_pair(rng, n2, m2, "unit", k)
+                pre = [dict(P=P0, V=V0)]
+            yield dict(entry=ent, family=rule.lower() + "_" + kind + ("_reuse" if pre else ""), rule=rule, P=P, V=V, k=k, ezi=bool(i % 3), dtype=("int64" if i % 5 else "int32"), prelude=pre)
 
     def run(self, case):
         return E.run_rule(case)
